@@ -96,6 +96,13 @@ class LiteralToken(RegexpBaseToken):
                     # beyond the range of Excel numbers; 10 ** 30000 cannot even be written into the class
                     raise E2PyclParserException(f'Numeric literal {self.value[0]} is out of range')
                 real_value = int(self.value[2]) * 10 ** int(self.value[7] or '0')
+                if real_value > 2 ** 53:
+                    # an Excel number is a double: a whole number too large to be one exactly is the double nearest to it, and
+                    # arithmetic on it rounds and overflows like arithmetic on any other number
+                    try:
+                        real_value = float(real_value)
+                    except OverflowError:
+                        raise E2PyclParserException(f'Numeric literal {self.value[0]} is out of range')
             if real_value == float('inf'):
                 # repr() would put the bare name inf into the class
                 raise E2PyclParserException(f'Numeric literal {self.value[0]} is out of range')
